@@ -104,13 +104,20 @@ GetKind(d, i) ==
   IF d[i].stars = 1 THEN "VP" ELSE IF d[i].stars = 2 THEN "VK"
   ELSE IF IsDunder(d[i].name) THEN "PO"    \* deviation DevDunder: "__x" => positional-only
   ELSE Scan(d, i, 1, FALSE)
-\* get_public_name: the "__" is cut off in everything shown to the user
-PublicName(n) == IF IsDunder(n) THEN SubSeq(n, 3, Len(n)) ELSE n
+\* get_public_name: the "__" is cut off only for parameters of stub files (repaired in /repo 7f3412e;
+\* before, every "__x" was shown as "x").  The programs of this model are ordinary source.
+PublicName(n) == n
 \* a design parameter keeps string_name (used by calculate_index) and the public name
 DParam(name, pub, kind, def, ann) == [name |-> name, pub |-> pub, kind |-> kind, def |-> def, ann |-> ann]
 DesignParams(d) == LET ps == Positions(d, 1) IN
   [k \in 1..Len(ps) |-> DParam(d[ps[k]].name, PublicName(d[ps[k]].name), GetKind(d, ps[k]),
                                 d[ps[k]].def, d[ps[k]].ann)]
+\* star_args.process_params on a function that forwards nothing: positional(-only) parameters are
+\* yielded at once, then *args, then the keyword-only names, then **kwargs.  The identity on every
+\* list Python compiles -- except that a "__x" written after *args / "*" (positional-only for jedi)
+\* jumps in front of *args.
+ProcessOwn(ps) == SelectSeq(ps, LAMBDA p : p.kind \in {"PO", "PK"}) \o SelectSeq(ps, LAMBDA p : p.kind = "VP")
+                  \o SelectSeq(ps, LAMBDA p : p.kind = "KO") \o SelectSeq(ps, LAMBDA p : p.kind = "VK")
 \* TreeSignature.get_param_names: is_bound => params[1:], whatever the first parameter is
 DesignBound(form, ps) == IF BindsFirst(form) THEN (IF ps = <<>> THEN <<>> ELSE Tail(ps)) ELSE ps
 \* what the API shows (ParamName.name/.kind/.to_string)
@@ -361,14 +368,14 @@ Next == \/ \E k \in Toks(defn) : AddTok(k)
 ---------------------------------------------------------------------------
 (* Design |= Reference *)
 RP  == RefBound(form, RefParams(defn))                 \* what inspect.signature shows
-DP  == DesignBound(form, DesignParams(defn))           \* what jedi uses
+DP  == DesignBound(form, ProcessOwn(DesignParams(defn)))   \* what jedi uses
 Args == IterArguments(call, slot)
 Idx  == CalcIndex(DP, Args)
 Acc  == Acceptable(RP, call, slot)
 RefView(ps) == [k \in 1..Len(ps) |-> [name |-> ps[k].name, kind |-> ps[k].kind]]
 
 \* named deviations (each confirmed on the real code against CPython; known_findings.d/C11.json)
-DevDunder == \E j \in 1..Len(defn) : defn[j].t = "param" /\ IsDunder(defn[j].name)
+DevDunder == \E j \in 1..Len(defn) : defn[j].t = "param" /\ defn[j].stars = 0 /\ IsDunder(defn[j].name)
 DevBoundVarPositional == BindsFirst(form) /\ defn # <<>> /\ defn[1].t = "param" /\ defn[1].stars = 1
 \* "*expr" typed after a keyword argument: the code gives up (None) although Python binds the
 \* elements to the free positional parameters
